@@ -35,4 +35,9 @@ def jobs(tier, seed):
             continue
         for cfg in cls.QUICK + (cls.THOROUGH if tier == "thorough" else []):
             js.append((cfg, "checks.C05", "run", {"cfg": cfg}))
+        # the other reward functions shipped with the environment (sparse variants): the documented effect of an illegal action (LAST +
+        # documented reward, or ignored move) must hold under each of them; first quick configuration only
+        for i, over in enumerate(getattr(cls, "REWARD_VARIANTS", [{}])):
+            if i:
+                js.append((cls.QUICK[0] + f"#{i}", "checks.C05", "run", {"cfg": cls.QUICK[0], "over": over}))
     return js
